@@ -327,7 +327,13 @@ func diff(exp *V, got any, path string) *mismatch {
 			}
 			bi, _ := bf.Int(nil)
 			if bi.Cmp(gi) != 0 {
-				return mk("flt:value", "expected float "+exp.String()+" got "+show(got))
+				// a text encoder may print an integral float with its shortest digits followed
+				// by zeros (1.7976931348623157e308 as 17976931348623157000...0): a decoder that
+				// keeps integers exact reports that integer, which is the number the text
+				// conveys and rounds to the same double
+				if f, _ := new(big.Float).SetInt(gi).Float64(); f != ef {
+					return mk("flt:value", "expected float "+exp.String()+" got "+show(got))
+				}
 			}
 			return nil
 		}
